@@ -4,9 +4,10 @@ cd /verif
 for d in seeded/*/; do
   n=$(basename $d); [ -f $d/patch.diff ] || continue
   p=$(python3 -c "import json;print(json.load(open('$d/meta.json'))['property'])")
-  git -C /repo apply $d/patch.diff 2>/dev/null || { echo "$n $p DOES-NOT-APPLY"; continue; }
-  r=$(./check $p --no-evidence 2>&1 | grep -c "^VIOLATION")
-  b=$(./check $p --no-evidence 2>&1 | grep -c "ANALYSIS-BROKEN")
+  git -C /repo apply /verif/$d/patch.diff 2>/dev/null || { echo "$n $p DOES-NOT-APPLY"; continue; }
+  o=$(./check $p --no-evidence 2>&1)
+  r=$(echo "$o" | grep -c "^VIOLATION")
+  b=$(echo "$o" | grep -c "ANALYSIS-BROKEN")
   git -C /repo checkout -- .
   echo "$n $p violations=$r broken=$b"
 done
